@@ -13,6 +13,7 @@ ID = "C11"
 LEVEL = "exploration"
 QUICK_SHARDS = 4
 MIN_NONTRIVIAL = 50
+FUZZ_RUNS = 160000     # thorough tier: atheris executions (all children)
 RULE = (
     "Recipe (all four classes; isolated atoms; placeholders; unspecified "
     "parity; attributes; roles; changes) x injective mapping (total or "
@@ -228,5 +229,5 @@ def run(ctx):
         labs += [f"follow:{o[0]}" for o in ops]
         ctx.note(case, nontrivial(case, ma, mp, ops), labs)
 
-    ctx.hyp("c11", S.tapes(1500).map(gen), check, ctx.scale(5000, 200000),
+    ctx.hyp("c11", S.mapped(1500, gen), check, ctx.scale(5000, 200000),
             shrinker=shrink)
